@@ -438,6 +438,7 @@ func checkParserTolerance(p *Program, r *Result, g *goLayouts) {
 		// repetitions bounded by the declared length
 		if fn := p.lookupFunc(pkgMcap, k.Decoder); fn != nil {
 			checkLoopBounds(p, r, ba, fn, k.Spec)
+			checkCollectionLengthFromRecord(p, r, fn, k.Spec)
 		}
 	}
 	if fn := p.lookupFunc(pkgMcap, "getPrefixedMap"); fn != nil {
@@ -751,4 +752,75 @@ func loopBoundExact(hdr *ssa.BasicBlock, iff *ssa.If, cond *ssa.BinOp, raw map[s
 		return "the repetition continues while position <= start + declared length: after the last declared entry one more is decoded, so an exact record fails and appended bytes are read as an entry"
 	}
 	return "the repetition bound is off by a constant from start + declared length"
+}
+
+// checkCollectionLengthFromRecord (C11.b): in a parser of an extensible record, a slice handed back in the result must
+// not take its LENGTH from the size of the record (len(buf)): bytes appended to the record would show up as extra,
+// zero-valued entries. A capacity hint computed from len(buf) is fine (make(T, 0, n)); so is a slice cut to the number of
+// entries decoded.
+func checkCollectionLengthFromRecord(p *Program, r *Result, fn *ssa.Function, kind string) {
+	var buf *ssa.Parameter
+	for _, prm := range fn.Params {
+		if isByteSlice(prm.Type()) {
+			buf = prm
+			break
+		}
+	}
+	if buf == nil {
+		return
+	}
+	var fromLen func(v ssa.Value, depth int) bool
+	fromLen = func(v ssa.Value, depth int) bool {
+		if depth > 8 || v == nil {
+			return false
+		}
+		switch x := v.(type) {
+		case *ssa.Call:
+			if b, ok := x.Call.Value.(*ssa.Builtin); ok && b.Name() == "len" && len(x.Call.Args) == 1 {
+				a := x.Call.Args[0]
+				for i := 0; i < 4; i++ {
+					if a == ssa.Value(buf) {
+						return true
+					}
+					sl, ok := a.(*ssa.Slice)
+					if !ok || sl.High != nil {
+						break
+					}
+					a = sl.X // len(buf[off:]) is as long as the record says
+				}
+			}
+		case *ssa.BinOp:
+			return fromLen(x.X, depth+1) || fromLen(x.Y, depth+1)
+		case *ssa.Convert:
+			return fromLen(x.X, depth+1)
+		}
+		return false
+	}
+	for _, in := range instrsOf(fn) {
+		mk, ok := in.(*ssa.MakeSlice)
+		if !ok || isByteSlice(mk.Type()) || !fromLen(mk.Len, 0) {
+			continue
+		}
+		// handed back as it is (stored into a field / returned) rather than through a re-slice to the decoded count
+		direct := false
+		for _, ref := range refsOf(mk) {
+			switch x := ref.(type) {
+			case *ssa.Store:
+				if x.Val == ssa.Value(mk) {
+					if _, isField := x.Addr.(*ssa.FieldAddr); isField {
+						direct = true
+					}
+				}
+			case *ssa.Return:
+				direct = true
+			}
+		}
+		construct := "length of the collection returned by the " + kind + " parser"
+		if direct {
+			r.violated("C11.b", funcName(fn), construct, p.pos(mk.Pos()),
+				"the slice handed back in the result is made with a length computed from the size of the record; bytes appended to the record become extra zero-valued entries")
+		} else {
+			r.held("C11.b", funcName(fn), construct, p.pos(mk.Pos()), "the slice made from the record size is cut to the decoded count before it is handed back")
+		}
+	}
 }
